@@ -109,13 +109,33 @@ let parse_sop (s : string) : sop =
       let z = BZ.of_string v in
       SShl (nat o, nat_of_int bits, BZ.sign z < 0, n_of_bz (BZ.abs z))
   | ["del"; o] -> SDel (nat o)
+  | [("shl16" | "shl16s" | "shl16v" | "shl32" | "shl32s" | "shlw"); o; _; m] when String.length m > 2 && String.sub m 0 2 = "M=" ->
+      (* wide text: ST::utf16_to_utf8 / utf32_to_utf8 into a temporary buffer, then append(utf8.data(), utf8.size()) *)
+      SAppend (nat o, bytes_of_hex (String.sub m 2 (String.length m - 2)))
   | _ -> failwith ("drv_mem: bad stream op " ^ s)
 
 let ss_case a =
   let pool = int_of_string (List.nth a 0) in
-  let ops = List.map parse_sop (split_on ';' (List.nth a 1)) in
+  let raw_ops = split_on ';' (List.nth a 1) in
+  let is_throwing_sop r = (let n = String.length r in n > 8 && String.sub r (n - 8) 8 = ",M=throw") in
+  let ops = List.map parse_sop (List.filter (fun r -> not (is_throwing_sop r)) raw_ops) in
   let stk = nat_of_int (int_of_n stack_string_size) and pnat = nat_of_int pool in
   let (steps, stf) = run_scheduled (fun st o -> run_shistory stk o pnat st) swith_fail sstate0 ops (parse_fail a) in
+  (* a failing wide insertion throws while converting into a TEMPORARY buffer, before any stream member runs:
+     the stream store is untouched (Mem/Stream.v has no operation for it; see Properties/C18.v header) *)
+  let steps =
+    let rec weave raws steps prev =
+      match raws with
+      | [] -> []
+      | r :: rest ->
+          if is_throwing_sop r then
+            (match prev with
+             | Some p -> { p with ss_result = Throw UnicodeError } :: weave rest steps prev
+             | None -> { ss_result = Throw UnicodeError; ss_objs = List.init pool (fun _ -> None); ss_shares = false } :: weave rest steps prev)
+          else (match steps with
+                | s :: more -> s :: weave rest more (Some s)
+                | [] -> []) in
+    weave raw_ops steps None in
   let pr_so i = function
     | None -> Printf.sprintf ";%d=-" i
     | Some o -> Printf.sprintf ";%d=%s:%d:%s" i (hex_of_bytes o.so_bytes) (int_of_nat o.so_size) (if o.so_own then "L" else "H") in
@@ -131,12 +151,22 @@ let ss_case a =
          | Ok n -> "OK " ^ body ^ "|leak=" ^ string_of_nat n
          | o -> res_name o) in
   (* spec: bytes only; where the bytes live (L/H) is not part of the property: '*' *)
-  let sstates = spec_shistory ops bstore0 in
+  let sstates0 = spec_shistory ops bstore0 in
+  let sstates =
+    let rec weave raws sts prev =
+      match raws with
+      | [] -> []
+      | r :: rest ->
+          if is_throwing_sop r then (`Thrown prev) :: weave rest sts prev
+          else (match sts with s :: more -> (`Ok s) :: weave rest more s | [] -> []) in
+    weave raw_ops sstates0 bstore0 in
   let pr_s st = String.concat "" (List.init pool (fun i ->
       match st (nat_of_int i) with
       | None -> Printf.sprintf ";%d=-" i
       | Some v -> Printf.sprintf ";%d=%s:%d:*" i (hex_of_bytes v) (List.length v))) in
-  let s = "OK " ^ String.concat "|" (List.map (fun st -> "r=ok" ^ pr_s st ^ ";sh=0") sstates) ^ "|leak=0" in
+  let s = "OK " ^ String.concat "|" (List.map (function
+      | `Ok st -> "r=ok" ^ pr_s st ^ ";sh=0"
+      | `Thrown st -> "r=unicode_error" ^ pr_s st ^ ";sh=0") sstates) ^ "|leak=0" in
   (m, s)
 
 (* ---- ST::string histories: each C++ operation carries its footprint class in a trailing M= field ---- *)
